@@ -336,6 +336,7 @@ LEVEL_TEXT = ("Totality and sibling-agreement rules on MIR: every panic-capable 
               "address decoders is proved unable to fire (interval analysis; two reviewed entries for the fresh payload buffer), every loop consumes "
               "input, every allocation size is bounded by a u8/u16 wire field; the tag sets written by the encoders are handled by the decoders, "
               "whose default arm skips the announced length; masks, multiplier, family order and byte order agree; A9 proves the encoder's counts "
-              "fit their three bits after truncation.")
+              "fit their three bits after truncation."
+              " Loop progress requires the success edge of a reader call; flag layout by term equivalence over all 256 flag bytes; third-party callees reviewed.")
 LEVEL_NOTE = "Partial: decides C16.R1-R3. Not decided: decode(encode(x)) = normalise(x) as a value statement."
 TECHNIQUE = "interval abstract interpretation (totality, bounded allocation), constant table extraction and encoder/decoder sibling agreement on MIR"
